@@ -139,6 +139,14 @@ def run_ops(case):
                 elif what == 'rm_file':
                     iso.rm_file(op[1])
                     exp.rm(op[1])
+                elif what == 'reopen':
+                    # master, close, parse: the rest of the history edits what open() rebuilt
+                    # (relocation directory, CL/PL links, continuation areas read from the image)
+                    gen = io.BytesIO()
+                    iso.write_fp(gen)
+                    iso.close()
+                    iso = pycdlib.PyCdlib()
+                    iso.open_fp(io.BytesIO(gen.getvalue()))
                 elif what == 'rm_dir':
                     if op[1] in reloc_live:
                         reloc_live.discard(op[1])
@@ -595,6 +603,27 @@ def history_cases():
                 ['dir', base + '/M1', 'moved-one', 0o040755], ['refused_dir', base + '/M1', 'moved-again', 0o040755],
                 ['dir', base + '/M2', 'moved-two', 0o040755], ['refused_dir', base + '/M2', 'moved-two', 0o040555],
                 ['file', base + '/M2/F.;1', 'in-moved-two', 0o100644, 3]]})
+            if ver != '1.10':
+                # (a 1.10 image without sparse files reads back as 1.09 - the two differ only in the RR
+                # entry, which 1.09 may omit - so the requested version is not demanded across a reopen)
+                # edits on what open() rebuilt: a second relocation after a reopen joins the first one
+                # in the relocation directory; relocated directories removed after a reopen
+                cases.append({'id': 'hist-reopenreloc-' + tag, 'ver': ver, 'xa': xa, 'level': 3, 'family': 'history', 'ops': chain + [
+                    ['dir', base + '/M1', 'moved-one', 0o040755], ['file', base + '/M1/X.;1', 'x-file', 0o100644, 4],
+                    ['reopen'], ['dir', base + '/M2', 'moved-two', 0o040555], ['file', base + '/M2/F.;1', 'in-moved-two', 0o100644, 3],
+                    ['dir', base + '/M3', 'm' * 190, 0o040755], ['reopen'], ['dir', base + '/M3/SUB', 'below-moved', 0o040755],
+                    ['symlink', base + '/M2/L.;1', 'link-in-two', '../moved-one/x-file']]})
+                cases.append({'id': 'hist-reopenrmreloc-' + tag, 'ver': ver, 'xa': xa, 'level': 3, 'family': 'history', 'ops': chain + [
+                    ['dir', base + '/M1', 'moved-one', 0o040755], ['dir', base + '/M2', 'moved-two', 0o040755],
+                    ['file', base + '/M2/F.;1', 'in-moved-two', 0o100644, 3], ['reopen'], ['rm_dir', base + '/M1'],
+                    ['dir', base + '/M4', 'moved-four', 0o040755], ['rm_file', base + '/M2/F.;1'], ['rm_dir', base + '/M2'],
+                    ['file', '/PLAIN.;1', 'plain', 0o100644, 4]]})
+                # continuation areas read from the image: a gap made after the reopen is re-used
+                cases.append({'id': 'hist-reopengap-' + tag, 'ver': ver, 'xa': xa, 'level': 3, 'family': 'history', 'ops': [
+                    ['file', '/A.;1', long_a, 0o100644, 4], ['file', '/B.;1', long_b, 0o100644, 4],
+                    ['file', '/C.;1', long_c, 0o100644, 4], ['reopen'], ['rm_file', '/B.;1'],
+                    ['file', '/D.;1', long_d, 0o100444, 4], ['symlink', '/S.;1', 'sym-' + 'x' * 100, 'x' * 300],
+                    ['reopen'], ['rm_file', '/A.;1'], ['file', '/E.;1', 'e' * 160, 0o100444, 4]]})
             cases.append({'id': 'hist-relocempty-' + tag, 'ver': ver, 'xa': xa, 'level': 3, 'family': 'history', 'ops': chain + [
                 ['dir', base + '/M1', 'moved-one', 0o040755], ['rm_dir', base + '/M1'],
                 ['file', '/PLAIN.;1', 'plain', 0o100644, 4]]})
